@@ -78,7 +78,10 @@ def main():
         ],
         "checks": checks,
         "notes": "Technique family: static analysis only. Nothing in a registered command runs passage or its tests. "
-                 "Genuine defects repaired in /repo are listed in known_findings.json under 'fixed'.",
+                 "Genuine defects repaired in /repo are listed in known_findings.json under 'fixed'. "
+                 "A line 'UNDECIDED: property=<id> <instance> ...' (exit 0) means a clause could not be examined because the code "
+                 "it is about is written in a way no recogniser of that rule covers (DESIGN.md section 14); it is listed under "
+                 "coverage.undecided in the evidence and is neither a pass nor an alarm.",
         "not_applicable": [{"property_id": p, "reason": r} for p, r in sorted(NOT_YET.items())],
     }
     with open(os.path.join(VERIF, "MANIFEST.json"), "w") as fh:
